@@ -143,6 +143,16 @@ theorem sort_keeps_sorted_sublists (list : List Doc) (cols : List Column)
     ys.Sublist (sortDocs list cols) :=
   sortDocs_sublist list cols ok hp hs
 
+/-- The three facts above determine the result: ANY list that is a permutation of the input,
+    non-decreasing, and keeps every tie class in input order is `sortDocs list cols`.  Hence the
+    choice of core's `List.mergeSort` as the model of Go's `sort.SliceStable` is immaterial. -/
+theorem sort_unique (list : List Doc) (cols : List Column) (ok : ∀ d ∈ list, (V.doc d).i64Ok = true)
+    (l' : List Doc) (hp : l'.Perm list) (hs : l'.Pairwise (fun a b => order a b cols ≠ .gt))
+    (ht : ∀ a ∈ list, l'.filter (fun b => order a b cols == .eq) =
+      list.filter (fun b => order a b cols == .eq)) :
+    l' = sortDocs list cols :=
+  sortDocs_unique list cols ok l' hp hs ht
+
 /-- `mongokit.Sort`: a valid specification sorts by its columns; an invalid one is an error and
     nothing else happens. -/
 theorem sortBySpec_spec (list : List Doc) (spec : Doc) :
